@@ -224,6 +224,15 @@ def clean_const(txt):
 HINT_OK = re.compile(r'^\s*(proof\s*\{|assert\s*\(|assert\s+forall|let ghost |reveal\(|//|broadcast use )')
 
 
+GHOST_MARK = '/*@ghost*/'
+
+
+def mark_ghost(text):
+    """every spliced ghost line (proof hint, loop invariant) carries a marker, so a Verus diagnostic located on it can be told
+    apart from one located on the real code: a failed proof *step* is not by itself a verdict on the code"""
+    return '\n'.join(ln + ' ' + GHOST_MARK if ln.strip() else ln for ln in text.split('\n'))
+
+
 def check_hint(text):
     if re.search(r'\b(assume|admit)\s*\(', text):
         raise Exception('hint contains assume/admit: ' + text[:80])
@@ -267,6 +276,10 @@ def emit_fn(sig, body, requires='', ensures='', hints=(), hints_all=(), loops=()
     for old, new, why in subst:
         if old not in body:
             raise AnchorLost('subst anchor %r' % old)
+        if '\n' in new:
+            # a replaced loop header that carries invariants: everything after its first line is ghost text
+            ls = new.split('\n')
+            new = '\n'.join([ls[0]] + [(mark_ghost(l) if l.strip() not in ('{', '') else l) for l in ls[1:]])
         body = body.replace(old, new)
         DROPS['subst: ' + why] += 1
     for anchor, text in hints:
@@ -276,7 +289,7 @@ def emit_fn(sig, body, requires='', ensures='', hints=(), hints_all=(), loops=()
             LOST_HINTS.append(anchor)      # ghost code only: emit the function without this hint
             continue
         ls = body.rfind('\n', 0, i) + 1
-        body = body[:ls] + text + '\n' + body[ls:]
+        body = body[:ls] + mark_ghost(text) + '\n' + body[ls:]
     for anchor, text in hints_all:
         check_hint(text.replace('@@', ''))
         if anchor not in body:
@@ -287,7 +300,7 @@ def emit_fn(sig, body, requires='', ensures='', hints=(), hints_all=(), loops=()
         for ln in lines:
             if anchor in ln:
                 ind = re.match(r'\s*', ln).group(0)
-                out.append(ind + text)
+                out.append(mark_ghost(ind + text))
             out.append(ln)
         body = '\n'.join(out)
     for anchor, text in loops:
@@ -297,5 +310,5 @@ def emit_fn(sig, body, requires='', ensures='', hints=(), hints_all=(), loops=()
         if i < 0:
             raise AnchorLost('loop anchor %r' % anchor)
         b = body.index('{', i + len(anchor) - 1) if not anchor.rstrip().endswith('{') else i + anchor.rstrip().__len__() - 1
-        body = body[:b] + '\n' + text + '\n' + body[b:]
+        body = body[:b] + '\n' + mark_ghost(text) + '\n' + body[b:]
     return attrs + sig + spec + '\n' + body + '\n'
